@@ -194,19 +194,19 @@ INT_POOL = {0: [0, 1, 2, 3, 127, 128, 255, 256, -1],
 
 
 def rand_str(rng):
-    r = rng.random()
+    r = rng.random() * 0.812
     if r < 0.6:
         return rng.choice(STR_POOL)
     if r < 0.8:
         return "".join(rng.choice(["a", "Z", "/", "\u00e9", "\u20ac", "\U0001F600", "\u0800", "\uffff", " "])
                        for _ in range(rng.randrange(0, 12)))
-    if r < 0.9:
+    if r < 0.806:
         return "s" * rng.choice([65535, 65536, 65534, 300])
     return "\u20ac" * rng.choice([21845, 21846, 5])       # 3 bytes each: 65535 / 65538 bytes
 
 
 def rand_bin(rng):
-    r = rng.random()
+    r = rng.random() * 0.91
     if r < 0.6:
         return rng.choice(BIN_POOL)
     if r < 0.9:
@@ -520,7 +520,11 @@ def run_props(ctx, out):
               (3, [("UserProperty", "\ud800b")]), (3, [("UserProperty", "a")]), (3, [("UserProperty", b"ab")]),
               (3, [("UserProperty", ("a", "b")), ("User Property", [("c", "d"), ("e", "f")]), ("UserProperty", ("g", "h"))]),
               (3, [("PayloadFormatIndicator", 1), ("PayloadFormatIndicator", 0)]), (1, [("ReceiveMaximum", [0])]),
-              (3, [("CorrelationData", [b"a"])]), (3, [("ContentType", ["a"])]), (3, [("TopicAlias", 0)])]
+              (3, [("CorrelationData", [b"a"])]), (3, [("ContentType", ["a"])]), (3, [("TopicAlias", 0)]),
+              (3, [("ContentType", "s" * 65535)]), (3, [("ContentType", "s" * 65536)]),
+              (3, [("ResponseTopic", "\u20ac" * 21845), ("CorrelationData", b"\x01" * 65535)]),
+              (3, [("CorrelationData", b"\x01" * 65536)]), (3, [("ContentType", "\u20ac" * 21846)]),
+              (15, [("UserProperty", ("k" * 65535, "\U0001F600" * 16383)), ("AuthenticationData", b"")])]
     results = {}
     for label, cs in (("corpus", stored), ("grid", grid), ("valid", valid), ("near", near), ("wild", wild)):
         results[label] = check_props(ctx, out, cs, label)
